@@ -64,6 +64,14 @@ Theorem C07_strip_punct_step_no_match : forall U r g s,
 Proof. exact re_sub_no_match. Qed.
 Print Assumptions C07_strip_punct_step_no_match.
 
+(* strip_punct only removes characters: for EVERY text and step list (replacement = nothing or the text of a
+   group of the match) the result is never longer than the input (engine soundness: captures lie inside the
+   match, successive matches do not overlap) *)
+Theorem C07_strip_punct_shrinks : forall U steps s,
+  (length (strip_punct U steps s) <= length s)%nat.
+Proof. exact strip_punct_length_le. Qed.
+Print Assumptions C07_strip_punct_shrinks.
+
 (* non-vacuity: the live chain on a concrete antecedent *)
 Example C07_strip_punct_example :
   strip_punct Gen.Unicode.U Gen.StripPunct.strip_punct_steps
